@@ -126,6 +126,19 @@ pub fn c07(o: &Opts) -> Outcome {
                 }
             }
         }
+        // several chunks, many workers, and k-mers that first appear in later chunks (met by several workers at once while merging)
+        {
+            let mut recs: Vec<Vec<u8>> = (0..40).map(|_| vec![b'A'; 60]).collect();
+            recs.extend((0..1500).map(|_| vec![b'C'; 40]));
+            for round in 0..(if o.thorough { 12 } else { 3 }) {
+                cases += 1;
+                if let Some(mut w) = c07_one(&recs, 12, 16, 1.28e-6, false) {
+                    for kv in w.iter_mut() { if kv.0 == "records" { kv.1 = "<40 x A^60, then 1500 x C^40>".into(); } }
+                    w.push(("round".into(), round.to_string()));
+                    return Outcome { cases, witness: Some(w) };
+                }
+            }
+        }
         // multi-member gzip input: every member is counted
         {
             let recs: Vec<Vec<u8>> = vec![b"ACGGTCATTGACCAGTTAGG".to_vec(), b"TTGACCATGGCATTAG".to_vec(), b"ACGGTCATTGACC".to_vec(), b"GGGGGGGGGGGGG".to_vec(), b"AC".to_vec()];
